@@ -51,6 +51,8 @@ func VerifC10_MergeStep() {
 	now := vfT10("now")
 	// the property quantifies over entries with distinct timestamps
 	vfAssume(!hasPrev || !prevTs.Equal(inTs))
+	// the single instant ExpiresAt == now is left open by the property text
+	vfAssume(!inExp.Equal(now))
 	e := vfEntry10("g", recv, inTs, inExp)
 
 	merged := st.merge(e, now)
@@ -182,6 +184,9 @@ func VerifC10_GC() {
 	}
 	vfAdvance(vfDuration("advance", 0, int64OfDays10(30000)))
 	now := vfNow()
+	for i := 0; i < n; i++ {
+		vfAssume(!exps[i].Equal(now)) // boundary instant left open by the property text
+	}
 	cnt, err := l.GC()
 	vfAssert("gc-no-error", err == nil)
 	want := 0
@@ -262,6 +267,9 @@ func VerifC10_Converge() {
 		}
 	}
 	now := vfNow()
+	for i := 0; i < n; i++ {
+		vfAssume(!es[i].ExpiresAt.AsTime().Equal(now))
+	}
 	// both hold, per key, the newest entry among those not expired
 	for k := 0; k < 2; k++ {
 		best := -1
